@@ -208,10 +208,10 @@ impl Check for C01 {
     }
     fn units(&self, tier: Tier) -> Vec<Unit> {
         vec![
-            Unit::gen("gen", 16, tier.pick(5000, 120_000)),
+            Unit::gen("gen", 16, tier.pick(30_000, 200_000)),
             Unit::enumerate("scalar_sweep", 16),
             Unit::enumerate("int_sweep", 4),
-            Unit::gen("float_sweep", 8, tier.pick(4000, 250_000)),
+            Unit::gen("float_sweep", 8, tier.pick(20_000, 250_000)),
             Unit::enumerate("deep", 4),
         ]
     }
